@@ -72,6 +72,12 @@ func fieldStores(f *ssa.Function, be *bigEnv) map[string]string {
 }
 
 func checkC14(c *Ctx) {
+	defer func() {
+		if n := pointWidth(c, "P-WIDTH-point", []string{"x509", "sm2"}); n > 0 {
+			c.Holds("P-WIDTH-point", "x509, sm2", "no point is encoded as 0x04 || X.Bytes() || Y.Bytes()", fmt.Sprintf("%d append chains inspected", n), token.NoPos)
+		}
+	}()
+
 	c.Decided = append(c.Decided,
 		"T-CODEC: each writer/reader pair uses inverse encodings of the same layout: hex private key (fixed 32 bytes, hex.EncodeToString/DecodeString), hex public key (04||X||Y, 32-byte coordinates, offsets 0/32), PEM block types, PKCS#8 (SM2 algorithm OID written and required; d < n; public key recomputed as [d]G), PBES2 parameters (PBKDF2-SHA1, 32-byte key, AES-256-CBC written; the reader derives the key the same way for that PRF OID), compressed point (parity byte || 32-byte X), ASN.1 signature (same structure type)",
 		"G-C14-pw: a PKCS#8 blob that does not parse after decryption is an error (wrong password)",
@@ -460,6 +466,7 @@ func c14PKCS8(c *Ctx) {
 }
 
 func c14Point(c *Ctx) {
+	c14DecompressValid(c)
 	rule := "T-CODEC"
 	if w := c.Fn("sm2", "Compress"); w != nil {
 		be := newBigEnv(w, paramNames(w, "a"))
@@ -501,6 +508,60 @@ func c14Point(c *Ctx) {
 		}
 		c.Check(t1 != "" && t1 == t2, rule, "sm2.SignDigitToSignData/SignDataToSignDigit", "same ASN.1 structure both ways", t1, "marshal uses "+t1+", unmarshal "+t2, m.Pos())
 	}
+}
+
+// c14DecompressValid: Decompress hands out a key only for an x that is the abscissa of a curve point. Whatever the
+// square-root method, the non-nil result must come after a test that fails for a non-residue: the nil test of
+// big.Int.ModSqrt's result, or an IsOnCurve call on the reconstructed point. (An exponentiation y2^((p+1)/4) always
+// "succeeds"; without the test it yields an off-curve key.)
+func c14DecompressValid(c *Ctx) {
+	rule := "T-CODEC"
+	f := c.Fn("sm2", "Decompress")
+	if f == nil {
+		c.Missing(rule, "sm2.Decompress", "function", "not found")
+		return
+	}
+	cut := map[edge]bool{}
+	n := 0
+	for _, ifi := range ifsOf(f) {
+		b := ifi.Block()
+		switch x := ifi.Cond.(type) {
+		case *ssa.BinOp:
+			// y == nil / y != nil on the ModSqrt result
+			var v ssa.Value
+			if isNilConst(x.Y) {
+				v = x.X
+			} else if isNilConst(x.X) {
+				v = x.Y
+			}
+			if call, ok := v.(*ssa.Call); ok && calleeID(&call.Call) == "(*math/big.Int).ModSqrt" {
+				n++
+				if x.Op == token.NEQ {
+					cut[edge{b, b.Succs[0]}] = true
+				} else if x.Op == token.EQL {
+					cut[edge{b, b.Succs[1]}] = true
+				}
+			}
+		case *ssa.Call:
+			if x.Call.IsInvoke() && x.Call.Method.Name() == "IsOnCurve" || calleeNamed(x, "IsOnCurve") {
+				n++
+				cut[edge{b, b.Succs[0]}] = true
+			}
+		case *ssa.UnOp:
+			if call, ok := x.X.(*ssa.Call); ok && x.Op == token.NOT && (call.Call.IsInvoke() && call.Call.Method.Name() == "IsOnCurve" || calleeNamed(call, "IsOnCurve")) {
+				n++
+				cut[edge{b, b.Succs[1]}] = true
+			}
+		}
+	}
+	// with the passing edges of those tests removed, no non-nil result is reachable
+	bad := token.NoPos
+	for b := range reach([]*ssa.BasicBlock{f.Blocks[0]}, cut) {
+		if ret, ok := b.Instrs[len(b.Instrs)-1].(*ssa.Return); ok && len(ret.Results) == 1 && !isNilConst(ret.Results[0]) {
+			bad = ret.Pos()
+		}
+	}
+	c.Check(n > 0 && bad == token.NoPos, rule, fname(f), "a key is returned only for an x on the curve", "", "Decompress can return a key without a test that fails when x^3+ax+b has no square root (nil result of ModSqrt, or IsOnCurve on the result): an x that is not the abscissa of any curve point yields an off-curve public key instead of nil", bad)
 }
 
 // c14Nil: every elliptic.Unmarshal result must pass a nil test that rejects before it is used
@@ -616,6 +677,22 @@ func c14Loaders(c *Ctx) {
 				return
 			}
 			nAssert++
+			if fnm == "X509KeyPair" {
+				// the key is matched against the LEAF: the certificate parsed from element 0 of the chain
+				leaf := false
+				if ex, ok := fa.X.(*ssa.Extract); ok && ex.Index == 0 {
+					if pc, ok := ex.Tuple.(*ssa.Call); ok && calleeNamed(pc, "ParseCertificate") && len(pc.Call.Args) > 0 {
+						if eld, ok := pc.Call.Args[0].(*ssa.UnOp); ok {
+							if ia, ok := eld.X.(*ssa.IndexAddr); ok {
+								if k, isK := constInt(ia.Index); isK && k == 0 {
+									leaf = true
+								}
+							}
+						}
+					}
+				}
+				c.Check(leaf, "T-TYPEFLOW", fname(f), "the private key is matched against the leaf certificate (chain element 0)", "", "the certificate whose public key is compared with the private key is not the one parsed from Certificate[0] (it is "+be.plain(fa.X, ta).String()+"): with a leaf+CA bundle the leaf's key is rejected and the CA's key accepted", ta.Pos())
+			}
 			t := types.TypeString(ta.AssertedType, nil)
 			c.Check(produced[t], "T-TYPEFLOW", fname(f), "case "+shortType(ta.AssertedType)+" is a type the certificate parser produces", "", "the loader tests Certificate.PublicKey for "+t+", which x509.parsePublicKey never returns (it yields "+keysOfSet(produced)+"): that arm is dead and matching pairs are rejected", ta.Pos())
 		})
